@@ -9,7 +9,8 @@ Directives (each block ends with `//@end`):
 
   //@extract <repo-file> <[Type::]fn_name> [ret <name>] [as <new_name>] [vis <text>]
   //@| requires ... / ensures ... / decreases ...   (inserted between signature and body)
-  //@loop <ordinal>  [iter <name>]
+  //@loop <ordinal>  [iter <name>]      (//@loop? and //@proof?: skipped when the loop / anchor is absent - the
+      contract is then checked against the code without that annotation instead of giving up)
   //@| invariant ... decreases ...                  (inserted before the loop body's `{`)
   //@proof before|after <ordinal> "<anchor substring of a body line>"
   //@| <verus statements>                           (wrapped in proof { } unless `raw`)
@@ -326,6 +327,8 @@ class Extractor:
                             break
                     start = pos + 1
             if pos < 0:
+                if spec.get('optional'):
+                    continue
                 raise LostAnchor('%s: proof anchor %r (#%d) not found' % (qual, anchor, occ))
             text = spec['text'] if spec.get('raw') else 'proof {\n' + spec['text'] + '\n}'
             if spec['where'] == 'before':
@@ -490,12 +493,12 @@ def parse_template(text):
                         spec['iter'] = p[3]
                     d['loops'].append(spec)
                     cur = spec['lines']
-                elif t.startswith('//@proof '):
-                    mm = re.match(r'//@proof\s+(before|after)\s+(\d+)\s+"(.*)"\s*(raw)?\s*$', t)
+                elif t.startswith('//@proof ') or t.startswith('//@proof? '):
+                    mm = re.match(r'//@proof(\?)?\s+(before|after)\s+(\d+)\s+"(.*)"\s*(raw)?\s*$', t)
                     if not mm:
                         raise Unsupported('bad //@proof line: %r' % t)
-                    spec = dict(where=mm.group(1), ordinal=int(mm.group(2)), anchor=mm.group(3), lines=[],
-                                raw=bool(mm.group(4)))
+                    spec = dict(where=mm.group(2), ordinal=int(mm.group(3)), anchor=mm.group(4), lines=[],
+                                raw=bool(mm.group(5)), optional=bool(mm.group(1)))
                     d['proofs'].append(spec)
                     cur = spec['lines']
                 elif t.startswith('//@rewrite '):
